@@ -52,7 +52,7 @@ def srt(x, frequency):
     return x[argsort(frequency)]
 '''
 
-contract('gnpy.core.info.SpectralInformation.__init__', props=['C07', 'C01', 'C03'],
+contract('gnpy.core.info.SpectralInformation.__init__', props=['C07', 'C01', 'C03', 'C02'],
          params=dict({'self': obj('SpectralInformation')},
                      **{a: (vec('n', 'str') if a == 'label' else vec('n')) for a in SI_ARGS}),
          spec=SPEC_SORTED,
@@ -100,7 +100,7 @@ contract('gnpy.core.info.is_in_band', props=['C07', 'C04'],
          returns=vec_len('len(frequency)', 'bool'), pure=True)
 
 SI2 = SI('n2')
-contract('gnpy.core.info.SpectralInformation.__add__', props=['C07', 'C01'],
+contract('gnpy.core.info.SpectralInformation.__add__', props=['C07', 'C01', 'C02'],
          params={'self': SI(), 'other': SI('n2')},
          let={'pi': 'sort_perm(append(self._frequency, other._frequency))[0]',
               'tot': 'self._number_of_channels + other._number_of_channels'},
@@ -136,3 +136,17 @@ def inband(si, band, i):
          let={'mask': 'is_in_band(input_si._frequency, input_si._slot_width, band)', 'emb': 'mask_index(mask)',
               'm': 'emb[0]', 'iota': 'emb[1]', 'pi': 'sort_perm(input_si._frequency[mask])[0]'},
          returns=opt(SI('n_demux')), modifies=[])
+
+# band merge of any number of bands (here three: the recursion is exercised twice): nothing is dropped
+contract('gnpy.core.info.muxed_spectral_information', name='gnpy.core.info.muxed_spectral_information[three bands]', props=['C01', 'C07'],
+         params={'input_si_list': lst(SI('na'), SI('nb'), SI('nc'))},
+         raises={'SpectrumError': None},
+         ensures=[('every_channel_of_every_band_is_in_the_merged_spectrum',
+                   'result._number_of_channels == input_si_list[0]._number_of_channels + input_si_list[1]._number_of_channels + '
+                   'input_si_list[2]._number_of_channels')],
+         modifies=[], use_at_calls=False)
+contract('gnpy.core.info.muxed_spectral_information', name='gnpy.core.info.muxed_spectral_information[one band]', props=['C01', 'C07'],
+         params={'input_si_list': lst(SI('na'))},
+         ensures=[('the_band_itself', 'result is input_si_list[0]')], modifies=[], use_at_calls=False)
+contract('gnpy.core.info.muxed_spectral_information', name='gnpy.core.info.muxed_spectral_information[no band]', props=['C01', 'C07'],
+         params={'input_si_list': lst()}, raises={'ValueError': 'True'}, ensures=[], modifies=[], use_at_calls=False)
